@@ -88,6 +88,9 @@ def gen_c09_spec(rng: random.Random) -> Dict[str, Any]:
         "retry_labels": rng.choice(["declared", "op"]),
         "no_result_on_retry": rng.random() < 0.5,
         "A": rng.choice([1, 2, None]),
+        # the control labels of the retry middleware are user labels too (value and type must survive)
+        "retry_flag": rng.choice([True, True, "true", "True", "TRUE"]),
+        "retry_max": rng.choice([20, 20, "20"]),
     }
     return spec
 
@@ -116,7 +119,7 @@ def run_c09(spec: Dict[str, Any]) -> "tuple[List[Violation], Dict[str, Any]]":
     seen: Dict[str, List[Dict[str, Any]]] = {}  # task_id -> observations per delivery
     executor = ThreadPoolExecutor(1)
     declared = {k: dec_label(x) for k, x in spec["declared"].items()}
-    retry_extra = {"retry_on_error": True, "max_retries": 20}
+    retry_extra = {"retry_on_error": spec.get("retry_flag", True), "max_retries": spec.get("retry_max", 20)}
     if spec["use_retry"] and spec["retry_labels"] == "declared":
         declared.update(retry_extra)
 
